@@ -104,8 +104,20 @@ def run(binpath, seed, tier, deadline, ncpu_parallel=4):
             ok = r.returncode == 0 and "ENVPROBE-OK" in r.stdout
             why = "exit status %d: %s" % (r.returncode, (r.stdout + " | " + r.stderr)[-400:].replace("\n", " | "))
         except subprocess.TimeoutExpired:
+            # natural timing: on an overloaded machine (or with the worker bound to a busy CPU) a correct process can
+            # exceed the limit.  Only a case that also exceeds a six times longer limit twice more is reported.
             ok = False
-            why = "did not finish within %d s" % t_case
+            why = "did not finish within %d s (and twice more within %d s)" % (t_case, 6 * t_case)
+            for _retry in range(2):
+                try:
+                    r = subprocess.run([binpath, "--envprobe", str(expect)], env=env_b, stdout=subprocess.PIPE, stderr=subprocess.PIPE, text=True, timeout=6 * t_case, errors="replace")
+                    ok = r.returncode == 0 and "ENVPROBE-OK" in r.stdout
+                    if not ok:
+                        why = "exit status %d: %s" % (r.returncode, (r.stdout + " | " + r.stderr)[-400:].replace("\n", " | "))
+                    stats["x_env_timeouts_retried"] = stats.get("x_env_timeouts_retried", 0) + 1
+                    break
+                except subprocess.TimeoutExpired:
+                    continue
         stats["done"] += 1
         stats["x_env_cases"] += 1
         stats["x_env_malformed_cases"] += 1 if malformed else 0
